@@ -171,6 +171,7 @@ class Interp:
         self.fail_sid = None
         self.fail_stack = None
         self.fail_any_row = False
+        self.handled_errors = 0
         self.trace_calls = 0
         self.max_depth = 0
         self.depth = 0
@@ -522,8 +523,8 @@ class Interp:
                 if name not in f.vars:
                     f.vars[name] = default_value(d["type"]) if d.get("fixed") is None else ("$", " " * d["fixed"])
 
-    def run(self, frame, code, labels):
-        pc = 0
+    def run(self, frame, code, labels, start=0, handler_mode=False):
+        pc = start
         n = len(code)
         while pc < n:
             ins = code[pc]
@@ -588,6 +589,25 @@ class Interp:
                 elif op == "gosub":
                     frame.gosub.append(pc + 1)
                     pc = labels[ins[1].upper()]
+                elif op == "onerror":
+                    st = ins[1]
+                    if st["mode"] == "goto":
+                        self.handler = ("goto", st["label"])
+                    elif st["mode"] == "zero":
+                        self.handler = None
+                    else:
+                        self.handler = ("next",)
+                    pc += 1
+                elif op == "resume":
+                    self.cur_sid = ins[1].get("id")
+                    if not handler_mode:
+                        raise BasicError(20)
+                    st = ins[1]
+                    if st["mode"] == "next":
+                        return ("next",)
+                    if st["mode"] == "label":
+                        return ("label", st["label"])
+                    return ("resume",)
                 elif op == "return":
                     self.cur_sid = ins[2]
                     if not frame.gosub:
@@ -597,11 +617,39 @@ class Interp:
                 else:
                     raise Discard("unsupported_flat_op_" + op)
             except BasicError as err:
-                if self.fail_sid is None:
-                    self.fail_sid = self.cur_sid
-                    self.fail_stack = list(self.call_rows)
-                raise
-        return
+                if handler_mode and not getattr(err, "passed_on", False):
+                    # an error raised by the handler itself: not defined by the property (QBasic stops, the
+                    # implementation re-enters the handler), so the oracle has no opinion
+                    raise Discard("error_inside_handler")
+                if getattr(err, "passed_on", False) or self.handler is None:
+                    # no handler (or an error inside the handler, or one that a deeper activation already gave up on)
+                    if self.fail_sid is None:
+                        self.fail_sid = self.cur_sid
+                        self.fail_stack = list(self.call_rows)
+                    err.passed_on = True
+                    raise
+                if op in ("jf", "until", "for_init", "for_test", "for_next", "sel_init", "sel_test", "ifline"):
+                    raise Discard("handled_error_in_block_header")
+                self.err_code = err.code
+                self.handled_errors += 1
+                if self.handler[0] == "next":
+                    pc += 1
+                    continue
+                # ON ERROR GOTO label: the handler runs in the main module, on the main module's variables
+                action = self.run(self.globals, self.main_code, self.main_labels, start=self.main_labels[self.handler[1].upper()], handler_mode=True)
+                if action is None:
+                    raise ProgramEnd()
+                self.err_code = 0
+                if action[0] == "resume":
+                    continue
+                if action[0] == "next":
+                    pc += 1
+                    continue
+                if frame is not self.globals:
+                    raise Discard("resume_label_from_procedure")
+                pc = labels[action[1].upper()]
+                continue
+        return None
 
     def unary_not(self, v):
         t, x = v
@@ -737,6 +785,17 @@ def builtin(interp, frame, name, args):
         if d < 1 or d > len(arr[0]):
             raise BasicError(9)
         return ("%", arr[0][d - 1][0 if name == "LBOUND" else 1])
+    if name in ("LEFT$", "RIGHT$"):
+        n = convert(vals[1], "%")[1]
+        if n < 0:
+            raise BasicError(5)
+        sv = vals[0][1]
+        return ("$", sv[:n] if name == "LEFT$" else (sv[len(sv) - n:] if n < len(sv) else sv))
+    if name == "CHR$":
+        n = convert(vals[0], "%")[1]
+        if n < 0 or n > 255:
+            raise BasicError(5)
+        return ("$", chr(n))
     raise Discard("unsupported_builtin_" + name)
 
 
@@ -820,6 +879,10 @@ def flatten(stmts):
             emit(("gosub", s["label"]))
         elif k == "return":
             emit(("return", s.get("label"), s.get("id")))
+        elif k == "onerror":
+            emit(("onerror", s))
+        elif k == "resume":
+            emit(("resume", s))
         else:
             emit(("s", s))
 
